@@ -566,7 +566,7 @@ func TestC13(t *testing.T) {
 		rec.SetExhaustive(false)
 		rec.Extra("cube_exhaustive", true)
 	}
-	runProp(t, rec, "gate", perShard(evid.Pick(2400, 8000)), func(rt *rapid.T) c13Gate {
+	runProp(t, rec, "gate", perShard(evid.Pick(2400, 30000)), func(rt *rapid.T) c13Gate {
 		c := c13Gate{MaxVersion: int(protogen.Version(rt)), Op: int(c13Opcodes[rapid.IntRange(0, len(c13Opcodes)-1).Draw(rt, "op")])}
 		switch rapid.IntRange(0, 3).Draw(rt, "vclass") {
 		case 0:
@@ -586,7 +586,7 @@ func TestC13(t *testing.T) {
 		return c
 	}, c13GateCheck)
 
-	runProp(t, rec, "sequence", perShard(evid.Pick(1200, 40000)), func(rt *rapid.T) c13Seq {
+	runProp(t, rec, "sequence", perShard(evid.Pick(1600, 150000)), func(rt *rapid.T) c13Seq {
 		c := c13GenSeq(rt)
 		labels := []string{"max:" + protogen.VersionName(primitive.ProtocolVersion(c.MaxVersion))}
 		key := ""
